@@ -124,8 +124,9 @@ fn cap_color_complete() {
 
 fn any_kind() -> std::io::ErrorKind {
     let k: u8 = kani::any();
-    match k % 2 {
+    match k % 3 {
         0 => std::io::ErrorKind::WouldBlock,
+        1 => std::io::ErrorKind::Interrupted,
         _ => std::io::ErrorKind::Other,
     }
 }
@@ -214,7 +215,8 @@ fn write_all_runs_once_in_order() {
         i += 1;
     }
     assert!(ok, "runs carry their 16-colour fg/bg, in order, and no escape byte is passed as text");
-    let failed = fail_at != NEVER && rec.n > fail_at;
+    // an interruption is retried (the script fails only once), every other error ends the call
+    let failed = fail_at != NEVER && rec.n > fail_at && kind != std::io::ErrorKind::Interrupted;
     match (r1.is_ok(), r2.is_ok()) {
         (true, true) => {
             assert!(!failed, "an error of the console writer reaches the caller");
@@ -222,6 +224,7 @@ fn write_all_runs_once_in_order() {
             assert!(n1 == 2 && taken1[0] == buf[9] && taken1[1] == buf[10], "second run handed over exactly once");
             kani::cover!(cut == 3);
             kani::cover!(rec.n > 2);
+            kani::cover!(kind == std::io::ErrorKind::Interrupted && fail_at != NEVER && rec.n > fail_at);
         }
         _ => {
             // either the injected error, or a console that accepted nothing (WriteZero)
